@@ -83,6 +83,12 @@ def main():
     # run as `python -m vf.core.worker`: make `import vf.core.worker` resolve to this very module
     # (one CpuBudget class, one signal handler)
     sys.modules.setdefault("vf.core.worker", sys.modules["__main__"])
+    try:  # die with the parent (a killed check must not leave spinning workers behind)
+        import ctypes
+
+        ctypes.CDLL("libc.so.6", use_errno=True).prctl(1, signal.SIGKILL)
+    except Exception:
+        pass
     modname = sys.argv[1]
     out = os.fdopen(os.dup(1), "w", buffering=1)
     os.dup2(2, 1)  # whatever the code under test prints must not corrupt the protocol
